@@ -70,14 +70,26 @@ def job_benign(name):
     if tmp is None:
         return name, 'patch no longer applies: ' + err, False
     bad = []
+    props = PROPS
+    if os.environ.get('TOUCHED'):
+        # quick pass: only the checks that read a module the patch touches (the full pass runs all 19)
+        txt = open(d + '/patch.diff').read()
+        by_file = {'ia32_arch.py': 'C01 C02 C03 C08 C09 C10 C11 C12 C17 C19', 'ia32_reg.py': 'C01 C02 C17', 'expression_eval_abstract.py': 'C06 C07 C12', 'expression.py': 'C05 C06 C07 C13 C15 C16 C08',
+                   'expression_helper.py': 'C05 C06 C07 C13', 'ia32_sem.py': 'C04 C08 C11 C12', 'emul_helper.py': 'C04 C07 C08 C11 C12', 'parse_ad.py': 'C02 C03 C09 C19 C10 C12', 'ia32_att.py': 'C02 C09 C19 C10',
+                   'modint.py': 'C14', 'ppc_arch.py': 'C18', 'lex.py': 'C12', 'yacc.py': 'C12 C19', 'bin_stream.py': 'C10'}
+        sel = set()
+        for f_, ps_ in by_file.items():
+            if '/' + f_ in txt:
+                sel.update(ps_.split())
+        props = sorted(sel) or PROPS
     try:
-        for p in PROPS:
+        for p in props:
             rc, lines, out = run_check(p, tmp)
             if rc != 0:
                 bad.append('%s(rc=%d: %s)' % (p, rc, (lines[0] if lines else '')[:200]))
     finally:
         shutil.rmtree(tmp, ignore_errors=True)
-    return name, ' '.join(bad) or 'all 19 checks exit 0', not bad
+    return name, ' '.join(bad) or 'all %d checks exit 0' % len(props), not bad
 
 
 def main():
